@@ -20,6 +20,12 @@ F(c) == CASE c.kind = "compress" -> [r |-> Compress(c.xs, c.sel)]
           [] c.kind = "pairwise" -> [r |-> Pairwise(c.counts)]
           [] c.kind = "dtype" -> [r |-> DtypeSize(c.isbool, c.bits)]
           [] c.kind = "diag" -> [r |-> CheckDiagonal(c.shape, c.entries)]
+          [] c.kind = "callsite" ->
+               LET p == Pairwise(c.counts)
+                   g == [k \in 1..PrefixSum(c.counts, Len(c.counts)) |->
+                           c.present[CHOOSE i \in 1..Len(c.counts) : p[i][1] < k /\ k <= p[i][2]]]
+               IN [r |-> [gsel |-> g, lsel |-> Compress(g, c.dsel).out,
+                          idx |-> Compress([k \in 1..Len(g) |-> k], And(c.dsel, g)).out]]
 ASSUME JsonSerialize(IOEnv.OUT, [i \in 1..Len(Cases) |-> F(Cases[i])])
 ====
 """
@@ -123,6 +129,65 @@ def _real(case, rng):
     raise AssertionError(k)
 
 
+def _callsite_cases(rng, n):
+    """Parameter shapes + a history of gradient-presence masks + a distributor selector (as DDPDistributor installs one)."""
+    worlds = []
+    for _ in range(n):
+        shapes = [rng.choice(([3], [5], [4, 3], [2, 2], [6], [1], [7, 2])) for _ in range(rng.choice((1, 2, 3, 4)))]
+        thr = rng.choice((2, 3, 4))
+        worlds.append({"shapes": shapes, "thr": thr, "sel_seed": rng.randrange(1 << 30),
+                       "masks": [[rng.random() < 0.6 for _ in shapes] for _ in range(rng.choice((2, 3, 5)))]})
+    return worlds
+
+
+def _callsite_real(world):
+    """Real Distributor.merge_and_block_gradients on the world; returns (counts, dsel, per-step observations)."""
+    import random as _r
+    from harness.adapter import Distributor, make_group
+    from distributed_shampoo.utils.shampoo_utils import compress_list
+    params = [torch.zeros(tuple(sh), dtype=torch.float64, requires_grad=True) for sh in world["shapes"]]
+    dist = Distributor(make_group(params, world["thr"], False))
+    counts = [int(x) for x in dist._global_num_blocks_per_param]
+    glob = tuple(dist._global_blocked_params)
+    r = _r.Random(world["sel_seed"])
+    dsel = tuple(r.random() < 0.6 for _ in glob)
+    # what DDPDistributor.__init__ does with its ownership selector (the shared step-time code below is the repository's)
+    dist._distributor_selector = dsel
+    dist._local_blocked_params = compress_list(glob, dsel)
+    dist._previous_global_grad_selector = None
+    obs = []
+    for mask in world["masks"]:
+        for p, m in zip(params, mask):
+            p.grad = torch.ones_like(p) if m else None
+        grads = dist.merge_and_block_gradients()
+        lm = dist.local_masked_blocked_params
+        obs.append({"gsel": [bool(x) for x in dist._global_grad_selector], "lsel": [bool(x) for x in dist._local_grad_selector],
+                    "idx": [next((k + 1 for k, gb in enumerate(glob) if gb is t), 0) for t in lm],
+                    "n_grads": len(grads), "grad_shapes_match": all(g.shape == t.shape for g, t in zip(grads, lm))})
+    return counts, list(dsel), obs
+
+
+def callsite_growth(ctx, quick, rng):
+    worlds = _callsite_cases(rng, 40 if quick else 400)
+    real = [_callsite_real(w) for w in worlds]
+    cases, owner = [], []
+    for wi, (w, (counts, dsel, obs)) in enumerate(zip(worlds, real)):
+        for si, mask in enumerate(w["masks"]):
+            cases.append({"kind": "callsite", "counts": counts, "present": mask, "dsel": dsel})
+            owner.append((wi, si))
+    expected, _ = tlc.oracle("UtilsOracle", ORACLE, cases, tag="GROWTH-callsite")
+    for (wi, si), exp in zip(owner, expected):
+        ctx.add("evaluations")
+        ctx.add("utils_callsite_steps")
+        o = real[wi][2][si]
+        e = exp["r"]
+        want = {"gsel": list(e["gsel"]), "lsel": list(e["lsel"]), "idx": list(e["idx"]), "n_grads": len(e["idx"]), "grad_shapes_match": True}
+        if o != want:
+            bad = [k for k in want if o[k] != want[k]]
+            ctx.violation(f"Distributor.merge_and_block_gradients disagrees with spec/Utils (Pairwise / Compress / CompressCompose) on {worlds[wi]} step {si}: "
+                          f"{bad[0]}: expected {want[bad[0]]}, observed {o[bad[0]]}", {"kind": "utils_callsite", "field": bad[0]}, {"callsite_world": worlds[wi]})
+
+
 def run_plan(plan, depth):
     from distributed_shampoo.utils.shampoo_utils import ParameterizeEnterExitContext
 
@@ -184,6 +249,7 @@ def utils_growth(ctx, quick, rng):
         if got != exp["r"]:
             ctx.violation(f"{case['kind']} disagrees with spec/Utils on {json.dumps(case)[:300]}: expected {exp['r']}, observed {got}",
                           {"kind": "utils", "fn": case["kind"]}, {"utils_case": case})
+    callsite_growth(ctx, quick, rng)
     # ParameterizeEnterExitContext
     ee = (tlc.SPEC_DIR / "EnterExit.tla").read_text()
     for d in ((1, 2) if quick else (1, 2, 3)):
@@ -214,6 +280,19 @@ def replay(ctx, r):
         ctx.add("evaluations")
         if got != expected[0]["r"]:
             ctx.violation(f"{case['kind']} disagrees with spec/Utils", {"kind": "utils", "fn": case["kind"]}, r)
+        return True
+    if "callsite_world" in r:
+        class _One:
+            def choice(self, _): raise AssertionError
+        w = r["callsite_world"]
+        counts, dsel, obs = _callsite_real(w)
+        cases = [{"kind": "callsite", "counts": counts, "present": m, "dsel": dsel} for m in w["masks"]]
+        expected, _ = tlc.oracle("UtilsOracle", ORACLE, cases, tag="GROWTH-callsite")
+        for o, exp in zip(obs, expected):
+            ctx.add("evaluations")
+            e = exp["r"]
+            if (o["gsel"], o["lsel"], o["idx"], o["n_grads"]) != (list(e["gsel"]), list(e["lsel"]), list(e["idx"]), len(e["idx"])) or not o["grad_shapes_match"]:
+                ctx.violation("Distributor.merge_and_block_gradients disagrees with spec/Utils", {"kind": "utils_callsite"}, r)
         return True
     if "enter_exit" in r:
         e = r["enter_exit"]
